@@ -294,8 +294,9 @@ pub fn winding_about(vs: &[V3], c: V3) -> Option<i32> {
     for i in 0..n {
         let a = vs[i];
         let b = vs[(i + 1) % n];
-        let pa = [dot(a, e1), dot(a, e2)];
-        let pb = [dot(b, e1), dot(b, e2)];
+        let (da, db) = (sub(a, c), sub(b, c));
+        let pa = [dot(da, e1), dot(da, e2)];
+        let pb = [dot(db, e1), dot(db, e2)];
         let la = (pa[0] * pa[0] + pa[1] * pa[1]).sqrt();
         let lb = (pb[0] * pb[0] + pb[1] * pb[1]).sqrt();
         if la == 0.0 || lb == 0.0 {
